@@ -53,7 +53,7 @@ def items(tier: str) -> List[Any]:
             if s not in seen:
                 seen.add(s)
                 out.append(s)
-    for focus, _, s in detspaces.detector_spaces(tier):
+    for focus, _, s in detspaces.detector_spaces(tier, chains=False):
         if focus in ("rekey-to", "group-size-check") and s not in seen:
             seen.add(s)
             out.append(s)
